@@ -11,7 +11,7 @@ pub const TOKENS: &[&str] = &[
 ];
 
 /// sub-alphabet that keeps every delimiter and separator
-pub const TOKENS_SMALL: &[&str] = &["1", "x", "(", ")", "[", "]", "{", "}", ",", ";", "?", ":", "-", "++", "not"];
+pub const TOKENS_SMALL: &[&str] = &["1", "x", "(", ")", "[", "]", "{", "}", ",", ";", "?", ":", "-", "++", "not", "\u{c}"];
 
 pub struct TokenSeqs {
     pub alphabet: Vec<&'static str>,
